@@ -8,6 +8,7 @@ import (
 	"go/printer"
 	"go/token"
 	"go/types"
+	"sort"
 	"strings"
 
 	"golang.org/x/tools/go/ssa"
@@ -430,28 +431,101 @@ func runC03(c *Checker) {
 		d, ok := side.m["default"]
 		c.decide(ok && strings.Contains(d, "return"), "HSK-SIB", side.name+"|unknown token is an error", side.pos["default"], "the default case returns an error", "an unknown token is silently skipped")
 	}
-	for _, t := range []string{"ee", "es", "se", "ss"} {
-		c.decide(wc[t] != "" && wc[t] == rc[t], "HSK-SIB", "dh|"+t+"|writer == reader", rpos[t], "identical DH step on both sides: "+wc[t],
-			"the "+t+" step differs between writeTokens and readTokens: the two parties derive different keys. writer: "+wc[t]+" | reader: "+rc[t])
-	}
-	// role-correct key pairs inside the DH cases
-	wantDH := map[string][2][2]string{
-		"ee": {{"remoteEphemeral", "localEphemeral"}, {"remoteEphemeral", "localEphemeral"}},
-		"ss": {{"remoteStatic", "localStatic"}, {"remoteStatic", "localStatic"}},
-		"es": {{"remoteStatic", "localEphemeral"}, {"remoteEphemeral", "localStatic"}},
-		"se": {{"remoteEphemeral", "localStatic"}, {"remoteStatic", "localEphemeral"}},
-	}
-	for _, t := range []string{"ee", "es", "se", "ss"} {
-		body := wc[t]
-		ini := fmt.Sprintf("ecdh(h.%s, h.%s)", wantDH[t][0][0], wantDH[t][0][1])
-		res := fmt.Sprintf("ecdh(h.%s, h.%s)", wantDH[t][1][0], wantDH[t][1][1])
-		okk := strings.Contains(body, ini) && strings.Contains(body, res) && strings.Contains(body, "h.mixKey(")
-		if t == "es" || t == "se" {
-			// initiator leg first
-			okk = okk && strings.Index(body, "if h.initiator") >= 0 && strings.Index(body, ini) < strings.Index(body, res)
+	// the DH steps, from the SSA of both token processors: which (remote, local) key pair is handed
+	// to ecdh under which role, per token, and that the result is mixed into the chaining key
+	type dhStep struct{ role, remote, local string }
+	dhSteps := func(fn *ssa.Function) (map[string][]dhStep, map[string]bool, map[string]token.Pos) {
+		out := map[string][]dhStep{}
+		mixed := map[string]bool{}
+		pos := map[string]token.Pos{}
+		if fn == nil {
+			return out, mixed, pos
 		}
-		c.decide(okk, "HSK-SIB", "dh|"+t+"|key pair per role", wpos[t], "initiator: "+ini+", responder: "+res+", result mixed into the key",
-			"the "+t+" step does not combine the keys Noise prescribes for each role: "+body)
+		fInit := w.Field("mailbox.handshakeState.initiator")
+		recvField := func(v ssa.Value) string {
+			u, ok := unwrapLoadAlloc(v).(*ssa.UnOp)
+			if !ok || u.Op != token.MUL {
+				return ""
+			}
+			fa, ok := u.X.(*ssa.FieldAddr)
+			if !ok || !sameParam(fa.X, fn.Params[0]) {
+				return ""
+			}
+			return structFieldOf(fa).Name()
+		}
+		for _, ci := range findCalls(fn, func(ci ssa.CallInstruction) bool { return calleeNameIsCI(ci, "ecdh") }) {
+			call, ok := ci.(*ssa.Call)
+			if !ok || len(call.Common().Args) != 2 {
+				continue
+			}
+			tok, role := "", "any"
+			for _, f := range factsAt(call.Block()) {
+				if bo, ok := f.Cond.(*ssa.BinOp); ok && bo.Op == token.EQL && f.Val && tok == "" {
+					for _, side := range []ssa.Value{bo.X, bo.Y} {
+						if k, ok := side.(*ssa.Const); ok && k.Value != nil && k.Value.Kind() == constant.String {
+							if nt := namedOf(k.Type()); nt != nil && nt.Obj().Name() == "Token" {
+								tok = constant.StringVal(k.Value)
+							}
+						}
+					}
+				}
+				if fInit != nil && isLoadOfField(f.Cond, fInit) {
+					if f.Val {
+						role = "initiator"
+					} else {
+						role = "responder"
+					}
+				}
+			}
+			if tok == "" {
+				tok = "?"
+			}
+			out[tok] = append(out[tok], dhStep{role, recvField(call.Common().Args[0]), recvField(call.Common().Args[1])})
+			pos[tok] = instrPos(call)
+			// result 0 reaches a mixKey call (directly or through a local/phi)
+			for _, mk := range findCalls(fn, func(ci ssa.CallInstruction) bool { return calleeNameIsCI(ci, "mixKey") }) {
+				for _, v := range expandValues(mk.Common().Args[len(mk.Common().Args)-1]) {
+					if ex, ok := v.(*ssa.Extract); ok && ex.Tuple == ssa.Value(call) && ex.Index == 0 {
+						mixed[tok+"|"+role] = true
+					}
+				}
+			}
+		}
+		for t := range out {
+			sort.Slice(out[t], func(a, b int) bool { return fmt.Sprint(out[t][a]) < fmt.Sprint(out[t][b]) })
+		}
+		return out, mixed, pos
+	}
+	wfn := mboxFunc(c, "(*mailbox.handshakeState).writeTokens")
+	rfn := mboxFunc(c, "(*mailbox.handshakeState).readTokens")
+	wdh, wmix, wdpos := dhSteps(wfn)
+	rdh, rmix, _ := dhSteps(rfn)
+	wantDH := map[string][]dhStep{
+		"ee": {{"any", "remoteEphemeral", "localEphemeral"}},
+		"ss": {{"any", "remoteStatic", "localStatic"}},
+		"es": {{"initiator", "remoteStatic", "localEphemeral"}, {"responder", "remoteEphemeral", "localStatic"}},
+		"se": {{"initiator", "remoteEphemeral", "localStatic"}, {"responder", "remoteStatic", "localEphemeral"}},
+	}
+	for _, t := range []string{"ee", "es", "se", "ss"} {
+		c.decide(len(wdh[t]) > 0 && fmt.Sprint(wdh[t]) == fmt.Sprint(rdh[t]), "HSK-SIB", "dh|"+t+"|writer == reader", rpos[t], fmt.Sprintf("identical DH step on both sides: %v", wdh[t]),
+			fmt.Sprintf("the %s step differs between writeTokens and readTokens: the two parties derive different keys. writer: %v | reader: %v", t, wdh[t], rdh[t]))
+	}
+	for _, t := range []string{"ee", "es", "se", "ss"} {
+		okk := fmt.Sprint(wdh[t]) == fmt.Sprint(wantDH[t])
+		for _, st := range wantDH[t] {
+			okk = okk && wmix[t+"|"+st.role] && rmix[t+"|"+st.role]
+		}
+		p := wpos[t]
+		if q, ok := wdpos[t]; ok {
+			p = q
+		}
+		c.decide(okk, "HSK-SIB", "dh|"+t+"|key pair per role", p, fmt.Sprintf("ecdh(remote, local) per role: %v, result mixed into the key", wantDH[t]),
+			fmt.Sprintf("the %s step does not combine the keys Noise prescribes for each role (found %v, want %v, result mixed into the key on every leg: %v)", t, wdh[t], wantDH[t], okk))
+	}
+	for t := range wdh {
+		if _, ok := wantDH[t]; !ok {
+			c.fail("HSK-SIB", "dh|"+t+"|unexpected DH", wdpos[t], fmt.Sprintf("an ecdh call outside the four DH tokens: %v", wdh[t]))
+		}
 	}
 	checkMeCase(c, wt, rt)
 	checkPreMessages(c, nhs)
@@ -1195,14 +1269,10 @@ func ruleHSKVER(c *Checker, rmp *ssa.Function) {
 	factsInRange := func(fs []Fact) bool {
 		lo, hi := false, false
 		for _, f := range fs {
-			bo, ok := f.Cond.(*ssa.BinOp)
-			if !ok || bo.X != version {
-				continue
-			}
-			if isLoadOfField(bo.Y, fMin) && ((bo.Op == token.LSS && !f.Val) || (bo.Op == token.GEQ && f.Val)) {
+			if factRel(f, isValue(version), func(v ssa.Value) bool { return isLoadOfField(v, fMin) }) == ">=" {
 				lo = true
 			}
-			if isLoadOfField(bo.Y, fMax) && ((bo.Op == token.GTR && !f.Val) || (bo.Op == token.LEQ && f.Val)) {
+			if factRel(f, isValue(version), func(v ssa.Value) bool { return isLoadOfField(v, fMax) }) == "<=" {
 				hi = true
 			}
 		}
@@ -1210,8 +1280,7 @@ func ruleHSKVER(c *Checker, rmp *ssa.Function) {
 	}
 	factsSame := func(fs []Fact) bool {
 		for _, f := range fs {
-			bo, ok := f.Cond.(*ssa.BinOp)
-			if ok && bo.X == version && isLoadOfField(bo.Y, fVer) && ((bo.Op == token.NEQ && !f.Val) || (bo.Op == token.EQL && f.Val)) {
+			if factRel(f, isValue(version), func(v ssa.Value) bool { return isLoadOfField(v, fVer) }) == "==" {
 				return true
 			}
 		}
